@@ -4,6 +4,8 @@
 import XC.Model.C46
 import XC.Proofs.C46_LB
 import XC.Proofs.C46_CS
+import XC.Proofs.C46_RT
+import XC.Proofs.C46_CSD
 namespace XC.C46
 open XC
 
@@ -89,6 +91,40 @@ theorem crc_reject (s body : Bytes) (c : Nat)
       simpa using hc
   · simp only at h; subst h; simp at hok
 
+/-! ## armor: round trip -/
+
+/-- **armor_roundtrip**: for every body, every chunking of the Writes, every well-formed block type and
+    header list (`WFType`, `WFH`: per encoded line `key ": " value` — no LF, ≤ 99 bytes, no White_Space
+    rune at either end, first `": "` is the separator; keys pairwise distinct), decoding what `Encode`
+    wrote yields the same type, the same headers, the same body, and ends with EOF (checksum accepted). -/
+theorem armor_roundtrip (ty : Bytes) (hdr : Hdr) (chunks : List Bytes) (hty : WFType ty) (hh : WFH hdr) :
+    decode (encodeGo ty hdr chunks) = some (ty, hdr, chunks.flatten, .eof) := by
+  rw [encode_chunking]
+  unfold encode
+  rw [decode_encoded ty hdr chunks.flatten _ hty hh]
+  simp
+
+/-- **CRC-24 mismatch ⇒ rejected**: the same armor with any other 24-bit value in the `=XXXX` line
+    decodes to the same type/headers/body bytes but reading the body ends with `ArmorCorrupt`. -/
+theorem crc_mismatch_rejected (ty : Bytes) (hdr : Hdr) (body : Bytes) (crc : Nat) (hty : WFType ty) (hh : WFH hdr)
+    (hne : crc % 16777216 ≠ crc24 crc24Init body % 16777216) :
+    decode (encHead ty hdr ++ breakLines (b64enc body) ++ encTail ty crc) = some (ty, hdr, body, .corrupt) := by
+  rw [decode_encoded ty hdr body crc hty hh]
+  simp [hne]
+
+/-- non-vacuity of the hypotheses: a usual type and header list are well-formed -/
+example : WFType (str "PGP MESSAGE") := by
+  refine ⟨by decide, ?_, by decide⟩
+  unfold noLF; decide
+
+example : WFH [(str "Version", str "GnuPG v1"), (str "Comment", str "a: b c")] := by
+  refine ⟨?_, by decide⟩
+  intro kv hkv
+  simp only [List.mem_cons, List.not_mem_nil, or_false] at hkv
+  rcases hkv with rfl | rfl <;>
+  · refine ⟨?_, by decide, ⟨by decide, by decide⟩, by decide⟩
+    unfold noLF; decide
+
 /-! ## clearsign -/
 
 /-- **dashEscaper, any Write chunking, every plaintext**: the text written is the dash-escaped
@@ -120,6 +156,18 @@ theorem clearsign_hash_agrees (hashName : Bytes) (chunks : List Bytes) :
   simp only
   rw [← hashOf_true]
   exact cth_signedBytes _ (canonLines_canon _)
+
+/-- **clearsign_roundtrip** (whole message): `Decode (Encode pt ‖ armored signature)` = hash name,
+    `Plaintext` = canonical lines with LF, `Bytes` = canonical lines joined by CRLF, signature block =
+    whatever `armor.Decode` yields on the armored signature (proved in `XC.Proofs.C46_CSD`). -/
+theorem clearsign_roundtrip (name : Bytes) (chunks : List Bytes) (A' : Bytes) (hn : WFHashName name) :
+    csDecode ((csEncode name chunks).1 ++ (csEndText ++ LF :: A')) =
+      (csArmor (csEndText ++ LF :: A')).map (fun a =>
+        ⟨[name], plainText (canonLines chunks.flatten), signedBytes (canonLines chunks.flatten),
+          a.1, a.2.1, a.2.2.1, a.2.2.2.1, a.2.2.2.2⟩) :=
+  clearsign_decode_encode name chunks A' hn
+
+example : WFHashName (str "SHA256") := ⟨by decide, by decide⟩
 
 /-- canonical lines have no LF and no trailing blank; canonicalisation is idempotent on them -/
 theorem canonical_lines (pt : Bytes) : ∀ l ∈ canonLines pt, noLF l ∧ trimR l = l := canonLines_canon pt
